@@ -342,11 +342,14 @@ def reach_conds(stmts, target):
     return None
 
 
-def reach_expr(stmts, target):
-    """the reach condition as one boolean expression (an ast node), True constant when unconditional; None if target not found"""
+def reach_expr(stmts, target, drop=None):
+    """the reach condition as one boolean expression (an ast node), True constant when unconditional; None if target not found.
+    drop(test) -> True removes a guard that is irrelevant for the rule (e.g. an output-format switch)"""
     cs = reach_conds(stmts, target)
     if cs is None:
         return None
+    if drop is not None:
+        cs = [(t, pol) for t, pol in cs if not drop(t)]
     vals = [t if pol else ast.UnaryOp(op=ast.Not(), operand=t) for t, pol in cs]
     if not vals:
         return ast.Constant(value=True)
@@ -415,6 +418,12 @@ def explore(stmts, atoms, names=(), upto=None, max_paths=20000, exceptions=False
         elif node.kind == 'stmt' and isinstance(node.ast, (ast.AugAssign,)) and isinstance(node.ast.target, ast.Name):
             cenv = dict(cenv)
             cenv[node.ast.target.id] = UNK
+        elif node.kind == 'stmt' and isinstance(node.ast, ast.Assign):
+            cenv = dict(cenv)
+            for t in node.ast.targets:
+                for n in ast.walk(t):
+                    if isinstance(n, ast.Name) and isinstance(n.ctx, ast.Store):
+                        cenv[n.id] = UNK
         elif node.kind == 'for':
             cenv = dict(cenv)
             for n in ast.walk(node.ast.target):
